@@ -16,7 +16,7 @@ FAMILIES = [
     ("kill.", ["kill_preempt", "sends_to_stopped"]),
     ("stop.", ["lifecycle_basic", "sends_to_stopped", "capacity_bound"]),
     ("record.", ["sends_to_stopped", "timeout_full_mailbox", "blocking_api"]),
-    ("blocking_", ["blocking_api"]), ("tell_blocking.", ["blocking_api"]), ("ask_blocking.", ["blocking_api"]),
+    ("blocking_", ["blocking_api"]), ("tell_blocking.", ["blocking_api", "blocking_timeout"]), ("ask_blocking.", ["blocking_api", "blocking_timeout"]),
     ("spawn", ["capacity_bound", "identity_and_liveness", "lifecycle_basic", "kill_preempt"]),
     ("mpsc.channel", ["capacity_bound"]), ("capacity_cell", ["capacity_bound"]), ("set_default_capacity", ["capacity_bound"]),
     ("erased.", ["erased_handles"]),
